@@ -105,48 +105,25 @@ func (r *repository) UpdateRuleSet(srcID string, rules []rule.Rule) error {
 	// find all rules for the given src id
 	applicable := slicex.Filter(r.knownRules, func(r rule.Rule) bool { return r.SrcID() == srcID })
 
-	// find new rules, as well as those, which have been changed.
-	toBeAdded := slicex.Filter(rules, func(newRule rule.Rule) bool {
-		ruleIsNew := !slices.ContainsFunc(applicable, func(existingRule rule.Rule) bool {
-			return existingRule.SameAs(newRule)
-		})
-
-		ruleChanged := slices.ContainsFunc(applicable, func(existingRule rule.Rule) bool {
-			return existingRule.SameAs(newRule) && !existingRule.EqualTo(newRule)
-		})
-
-		return ruleIsNew || ruleChanged
-	})
-
-	// find deleted rules, as well as those, which have been changed.
-	toBeDeleted := slicex.Filter(applicable, func(existingRule rule.Rule) bool {
-		ruleGone := !slices.ContainsFunc(rules, func(newRule rule.Rule) bool {
-			return newRule.SameAs(existingRule)
-		})
-
-		ruleChanged := slices.ContainsFunc(rules, func(newRule rule.Rule) bool {
-			return newRule.SameAs(existingRule) && !newRule.EqualTo(existingRule)
-		})
-
-		return ruleGone || ruleChanged
-	})
-
+	// the rules of the rule set are replaced as a whole (on a copy of the index): rules sharing a
+	// path expression are tried in the order of the rule set. Replacing just the changed ones would
+	// move them behind the unchanged ones
 	tmp := r.index.Clone()
 
 	// delete rules
-	if err := r.removeRulesFrom(tmp, toBeDeleted); err != nil {
+	if err := r.removeRulesFrom(tmp, applicable); err != nil {
 		return err
 	}
 
 	// add rules
-	if err := r.addRulesTo(tmp, toBeAdded); err != nil {
+	if err := r.addRulesTo(tmp, rules); err != nil {
 		return err
 	}
 
 	r.knownRules = slices.DeleteFunc(r.knownRules, func(loaded rule.Rule) bool {
-		return slices.Contains(toBeDeleted, loaded)
+		return slices.Contains(applicable, loaded)
 	})
-	r.knownRules = append(r.knownRules, toBeAdded...)
+	r.knownRules = append(r.knownRules, rules...)
 
 	r.rulesTreeMutex.Lock()
 	r.index = tmp
